@@ -131,6 +131,9 @@ SMALL = {
             {"name": "explicitRequired", "type": {"kind": "base", "name": "string"}, "optional": False},
             {"name": "explicitStable", "type": {"kind": "base", "name": "boolean"}, "optional": True, "proposed": False},
             {"name": "emptyDoc", "type": {"kind": "base", "name": "integer"}, "documentation": "", "since": "", "sinceTags": []},
+            # one-element sinceTags repeating `since`; references whose names equal base-type names
+            {"name": "sameTag", "type": {"kind": "reference", "name": "URI"}, "since": "3.0", "sinceTags": ["3.0"]},
+            {"name": "refNamedLikeBase", "type": {"kind": "array", "element": {"kind": "reference", "name": "string"}}, "optional": True},
         ], "proposed": False, "extends": [], "mixins": []},
     ],
     "enumerations": [
@@ -142,6 +145,8 @@ SMALL = {
     "typeAliases": [
         {"name": "AA", "type": {"kind": "base", "name": "string"}, "documentation": "adoc", "since": "3", "proposed": True, "deprecated": "d"},
         {"name": "AB", "type": {"kind": "or", "items": [{"kind": "reference", "name": "SA"}, {"kind": "array", "element": {"kind": "reference", "name": "SB"}}]}},
+        {"name": "URI", "type": {"kind": "base", "name": "URI"}, "since": "3.1", "sinceTags": ["3.1"]},
+        {"name": "string", "type": {"kind": "map", "key": {"kind": "reference", "name": "DocumentUri"}, "value": {"kind": "reference", "name": "integer"}}},
     ],
 }
 
@@ -263,6 +268,8 @@ def wire_edits(doc, rng, limit):
     for pth in pick("map"):
         ed("map.value changed", lambda d, pth=pth: at(d, pth).__setitem__("value", {"kind": "array", "element": at(d, pth)["value"]}))
         ed("map.key changed", lambda d, pth=pth: at(d, pth).__setitem__("key", {"kind": "base", "name": "integer"} if at(d, pth)["key"] != {"kind": "base", "name": "integer"} else {"kind": "base", "name": "string"}))
+    for pth in pick("base"):
+        ed("base flipped to a reference of the same name", lambda d, pth=pth: at(d, pth).__setitem__("kind", "reference") if at(d, pth)["name"] != "null" else (_ for _ in ()).throw(KeyError()))
     for pth in pick("stringLiteral"):
         ed("stringLiteral.value changed", lambda d, pth=pth: at(d, pth).__setitem__("value", at(d, pth)["value"] + "x"))
     for pth in pick("reference"):
@@ -384,7 +391,10 @@ def main(tier):
             rep.fail("loaded model differs from the document|%s|%s" % (generic_path(df[0]), df[1].split(" ")[0]), {"document": name, "path": df[0], "what": df[1]})
     # ---- merge = concatenation
     for name, d in docs[:2] + docs[2:4]:
-        for adds in ([ADD1], [ADD1, ADD2], [ADD2, ADD1]):
+        # (later files may carry any metaData.version - older, newer, not a version at all)
+        newer = dict(copy.deepcopy(ADD1), metaData={"version": "3.18.0"})
+        newest = dict(copy.deepcopy(ADD2), metaData={"version": "99"})
+        for adds in ([ADD1], [ADD1, ADD2], [ADD2, ADD1], [newer], [newest, newer]):
             stats["merge_cases"] += 1
             try:
                 m = gm.create_lsp_model([copy.deepcopy(d)] + [copy.deepcopy(a) for a in adds])
